@@ -48,7 +48,7 @@ REQUIRED_LABELS = [
     "use:capacity", "target:imported", "import:as", "import:proto_name", "import:two_hop", "target:nested_in_imported_message",
     "target:depth0", "target:depth1", "target:depth2", "shadow:inner_wins", "shadow:later_inner_definition_ignored",
     "kind:enum", "kind:message", "kind:alias", "kind:const", "reject:undefined", "reject:wrongkind", "reject:defined_later",
-    "reject:in_imported_file", "own_name_in_body", "obs:python",
+    "reject:in_imported_file", "own_name_in_body", "obs:python", "obs:via_importer",
 ]
 
 
@@ -165,7 +165,8 @@ def check_rejection(c: SH.Case, stats: Stats) -> None:
             stats.evaluations += 1
             try:
                 cu.parse(g)
-            except bpapi.ParserError:
+            except bpapi.ParserError as e:
+                stats.count("reject_class:" + type(e).__name__)
                 continue
             except Exception as e:
                 raise Violation(f"{at}: `{u.text}` is {u.outcome} here; parsing {g.filename} raised {type(e).__name__}: {e}", signature=f"reject-exc:{type(e).__name__}")
@@ -177,7 +178,9 @@ def check_rejection(c: SH.Case, stats: Stats) -> None:
 
 def run_case(c: SH.Case, stats: Stats) -> None:
     if c.excluded:
-        stats.exclude("dotted path whose first component is declared in an inner scope lacking the rest (readings differ)", c.excluded)
+        stats.exclude("drawn dotted path whose first component is declared in an inner scope lacking the rest (readings differ): replaced", c.excluded)
+    if c.excluded_seen:
+        stats.exclude("(slot, candidate text) pairs of that class, never written", c.excluded_seen)
     if c.bad is not None:
         check_rejection(c, stats)
         with SH.Repaired(c.bad):
@@ -216,7 +219,16 @@ def check_valid(c: SH.Case, stats: Stats, twin: bool) -> None:
             if u.ncand >= 2:
                 stats.count("nontrivial_use")
                 stats.mark_nontrivial(digest, SH.definition_path(u.owner), u.text)
-        # every importer sees the same definitions through its own parse of the imported file: identity via main parse too
+        # the same uses again as the IMPORTING file's parse sees them (the imported file is parsed below the importer's scopes)
+        for g in unit.files:
+            for imp in g.imports():
+                child = protos[id(g)].members.get(imp.name)
+                if child is None or type(child).__name__ != "Proto":
+                    raise Violation(f"{g.filename}: import name {imp.name} is not a member of the parsed file", signature="import-member")
+                for u in c.uses:
+                    if file_of(u.owner) is imp.file:
+                        check_use(child, u, stats)
+                        stats.count("obs:via_importer")
         why = SH.python_unsafe(c)
         if why is not None:
             stats.count("obs1_only:" + why.split(":")[0])
